@@ -195,6 +195,9 @@ def gen_containers(run, tier):
 
 
 def check(run, only=None):
+    from .. import e3
+    e3.run_parts(run, ["conversions"], only=only)
+    run.notes.append("E3 (MIR symbolic execution): the generic list / map impls (Vec<V>, BTreeMap<String,V>, HashMap<String,V> from a Value; Vec<V> into a Value) with the element conversion an arbitrary deterministic partial function")
     tier = run.tier
     ov = Overlay(run, "c17")
     hs = gen(run, tier)
@@ -226,5 +229,20 @@ def check(run, only=None):
 
 
 def replay(run, path):
+    import json as _json
+    _rec = _json.load(open(path))
+    if _rec.get("replay", {}).get("engine") == "e3-convert":
+        from ..synx import Helper
+        _rp = _rec["replay"]
+        _line = Helper(run).call("convert", [_rp["request"]])[0]
+        _obs = _json.loads(_line[3:]) if _line.startswith("OK ") else {"panic": _line}
+        _exp = _rp["expected"]
+        _ok = any(_json.dumps(_obs.get("err"), sort_keys=True) == _json.dumps(x, sort_keys=True) for x in _exp["err_any_of"]) if "err_any_of" in _exp else _json.dumps(_obs, sort_keys=True) == _json.dumps(_exp, sort_keys=True)
+        if not _ok:
+            print(f"VIOLATION property=C17 replay={path}")
+            print(f"  cell={_rec['cell']} class={_rec['class']}: {_json.dumps(_obs)} but the specification gives {_json.dumps(_exp)}")
+            return 1
+        print(f"replay {path}: behaves as specified on the current tree")
+        return 0
     from ..replay import replay_file
     return replay_file(run, path, gen_all=lambda: gen(run, "thorough") + gen_containers(run, "thorough"), file=FILE, tag="c17")
